@@ -2,6 +2,7 @@ package main
 
 import (
 	"fmt"
+	"go/types"
 	"os"
 	"path/filepath"
 	"sort"
@@ -113,3 +114,5 @@ func (l *loaded) harnesses(prefix string) []*ssa.Function {
 	sort.Slice(out, func(i, j int) bool { return out[i].Name() < out[j].Name() })
 	return out
 }
+
+func typesPointer(m *ssa.Type) types.Type { return types.NewPointer(m.Type()) }
